@@ -699,3 +699,20 @@ CHECKS["C15"]["jobs"].append(J("refused-web-requests", AGENT, "TestC06WebAPI", {
                                only=r"refused request \(\d+\) changed the store"))
 CHECKS["C15"]["required_classes"]["all"] += ["management-request-with-method-other-than-POST"]
 CHECKS["C12"]["jobs"].append(J("upgrades-1cpu", AGENT, "TestC12Upgrades", {"shards": 2, "checks": 40, "env": {"GOMAXPROCS": "1"}}, {"shards": 4, "checks": 3000, "env": {"GOMAXPROCS": "1"}}, toolchain="go126"))
+
+# ---- jobs shared between properties, each judged only on the clause that belongs to the sharing property ("only") ----
+_ACK_INCOMPLETE = r"reported success but the record is not the complete new record"
+for _p, _sh in (("C01", 10), ("C12", 10), ("C14", 10)):
+    # an acknowledged add / update under single injected I/O faults (failing writes, cross-device rename and its fall-backs):
+    # C01 the acknowledged password works, C12 / C14 the rewritten record is complete and its auxiliary data unchanged
+    CHECKS[_p]["jobs"].append(J("acknowledged-under-faults", VTRACE, "TestC15FaultInjection", {"shards": _sh, "checks": 2}, {"shards": 20, "checks": 60}, only=_ACK_INCOMPLETE, known_from="C15"))
+CHECKS["C08"]["jobs"].append(J("odd-layouts", VSTORE, "TestC15OddLayouts", {"shards": 2, "checks": 150}, {"shards": 8, "checks": 6000}, only=r"changed other file-system objects"))
+CHECKS["C17"]["jobs"].append(J("upgrade-path", AGENT, "TestC12Upgrades", {"shards": 4, "checks": 60}, {"shards": 8, "checks": 5000}, toolchain="go126", only=r"fails the policy"))
+_RETIRED = r"parameter set that this configuration does not define"
+CHECKS["C01"]["jobs"].append(J("reload-retired-set", VBB, "TestC18Reload", {"shards": 3, "checks": 3}, {"shards": 8, "checks": 60}, only=_RETIRED))
+CHECKS["C02"]["jobs"].append(J("reload-retired-set", VBB, "TestC18Reload", {"shards": 3, "checks": 3}, {"shards": 8, "checks": 60}, only=_RETIRED))
+CHECKS["C04"]["jobs"].append(J("reload-frontends", VBB, "TestC18Reload", {"shards": 3, "checks": 3}, {"shards": 8, "checks": 60}, only=r"should serve configuration \S+ completely"))
+for _p in ("C01", "C12", "C14"):
+    CHECKS[_p]["prebuild"] = CHECKS[_p].get("prebuild", []) + DRV_PREBUILD
+for _p in ("C01", "C02"):
+    CHECKS[_p]["prebuild"] = CHECKS[_p].get("prebuild", []) + BIN_PREBUILD
